@@ -35,6 +35,7 @@ structure CodecSt where
   decoded : Array (List Node) := #[]
   decInvalid : Bool := false
   decTmpl : Option Template := none                -- template the decoded dataset was built with
+  decFlag : Nat := 0                               -- Section 3 flag of the decoded message (`dts->data_flag |= s3.flag`)
   last : Option (Nat × Nat × List Nat) := none     -- flag, nsub, Section 4 bytes of the last ds.encode
 
 /-- deterministic pseudo-random 64-bit word from (seed, index), same formula in the harness -/
@@ -137,7 +138,7 @@ partial def stepCodec (st : TmplSt) (cs : CodecSt) (toks : List String) : Option
       let ss := settled.map (·.1)
       let st := { st with subsets := (ss.map fun ns => ({ nodes := ns } : Subset)).toArray,
                           invalid := st.invalid || settled.any (·.2) }
-      let (flag, w0) := encodeData ss 0 c
+      let (flag, w0) := encodeData ss st.dataFlag c
       let w := padSection4 t.edition w0
       some (st, { cs with last := some (flag, ss.length, w.bytes) }, s!"{flag} {ss.length} {toHex w.bytes}")
     | _, _ => some (st, cs, "none")
@@ -156,7 +157,7 @@ partial def stepCodec (st : TmplSt) (cs : CodecSt) (toks : List String) : Option
         | .error .null => some (st, cs, "crash")
         | .ok none => some (st, { cs with decoded := #[] }, "null")
         | .ok (some out) =>
-          some (st, { decoded := out.subsets.toArray, decInvalid := out.invalid, decTmpl := some t, last := cs.last },
+          some (st, { decoded := out.subsets.toArray, decInvalid := out.invalid, decTmpl := some t, last := cs.last, decFlag := flag },
             s!"ok {if out.invalid then 1 else 0} {out.subsets.length}")
     | _, _, _, _, _, _, _, _ => some (st, cs, "bad-op")
   | ["ds.decodelast", enf, fr, to] =>
@@ -194,7 +195,7 @@ partial def stepCodec (st : TmplSt) (cs : CodecSt) (toks : List String) : Option
           match col with
           | [] => true
           | (it : Spec.Item) :: rest => !(it.kind = .ccitt ∧ it.width / 8 > 63) || rest.all (·.str = it.str)
-        let comp' : Bool := if decide (nsub ≥ 2) && sameShape && sameFactors && stringsFit then (Spec.choice seed 999) % 3 ≠ 0 else false
+        let comp' : Bool := if decide (nsub ≥ 1) && sameShape && sameFactors && stringsFit then (Spec.choice seed 999) % 3 ≠ 0 else false
         let pad := 0   -- the octet fill is the only padding FM 94 allows
         let bits := Spec.refEncode seed comp' subs pad
         let bits := if ed ≤ 3 ∧ (bits.length / 8) % 2 = 1 then bits ++ List.replicate 8 false else bits
@@ -222,13 +223,14 @@ partial def stepCodec (st : TmplSt) (cs : CodecSt) (toks : List String) : Option
           | .error .null => some (st, cs, "crash")
           | .ok none => some (st, { cs with decoded := #[], decTmpl := none }, pre ++ "null")
           | .ok (some out) =>
-            some (st, { decoded := out.subsets.toArray, decInvalid := out.invalid, decTmpl := some t, last := cs.last },
+            some (st, { decoded := out.subsets.toArray, decInvalid := out.invalid, decTmpl := some t, last := cs.last, decFlag := m.s3Flag },
               pre ++ s!"ok {if out.invalid then 1 else 0} {out.subsets.length}")
   | ["dd.tocur"] =>
     -- the decoded dataset becomes the current one
     match cs.decTmpl with
     | some t =>
-      some ({ st with tmpl := some t, subsets := cs.decoded.map (fun ns => ({ nodes := ns } : Subset)), invalid := cs.decInvalid },
+      some ({ st with tmpl := some t, subsets := cs.decoded.map (fun ns => ({ nodes := ns } : Subset)), invalid := cs.decInvalid,
+                      dataFlag := cs.decFlag },
             { cs with decoded := #[], decTmpl := none }, s!"ok {cs.decoded.size}")
     | none => some (st, cs, "none")
   | ["dd.merge", dp, sp, nb] =>
